@@ -17,6 +17,57 @@ def variants(harness):
     return _variants.get(harness, [])
 
 
+_descs = None
+
+
+def descs(harness):
+    global _descs
+    if _descs is None:
+        out = subprocess.run([V + "/build/vxh", "list"], stdout=subprocess.PIPE, text=True).stdout
+        _descs = {}
+        for e in json.loads(out):
+            _descs.setdefault(e["harness"], {})[e["variant"]] = e["desc"]
+    return _descs.get(harness, {})
+
+
+def qp_is_big(desc):
+    """queue programs whose schedule tree is large: anything that runs on the thread pool
+    concurrently (custom concurrent / global / inactive-retargeted queues not sitting on a serial
+    queue) or has three client threads"""
+    import re
+    if desc.count("|") >= 3:
+        return True
+    queues = desc.split("|")[0]
+    toks = queues.replace("gate;", "").replace("cold;", "").split()
+    kinds = {}
+    for t in toks:
+        m = re.match(r"([A-Z])(\d)(?:>(\d))?", t)
+        if m:
+            kinds[int(m.group(2))] = (m.group(1), int(m.group(3)) if m.group(3) else None)
+    for i, (k, tgt) in kinds.items():
+        if k in "CNGI":
+            # harmless if it (transitively) targets a serial queue or workloop
+            j = tgt
+            serial_below = False
+            while j is not None:
+                if kinds[j][0] in "SW":
+                    serial_below = True
+                j = kinds[j][1]
+            if not serial_below:
+                return True
+    return False
+
+
+def qp(harness, tier, small_k, big_k, big_mode="pb", **kw):
+    out = []
+    for v, d in sorted(descs(harness).items()):
+        big = qp_is_big(d)
+        out += ds(harness, big_k if big else small_k, [v], mode=big_mode if big else "pb", jobs=8 if big else 4, **kw)
+    # cheapest first so that a deadline cuts the most expensive programs only
+    out.sort(key=lambda t: (t["jobs"], t["variant"]))
+    return out
+
+
 def ds(harness, k, vs=None, ncpu=2, mode="pb", jobs=4, **kw):
     vs = variants(harness) if vs is None else vs
     out = []
@@ -39,7 +90,29 @@ SEQ_ASSUME = [
     "Linux build as produced by bin/buildlib (clang-14, ASan)",
 ]
 
+def _qplan(what, quick, thorough):
+    return {
+        "rule": "one evaluation = one complete execution of the real library under one schedule of a small client program (" + what + "); "
+                "all schedules with <=k preemptions are enumerated per program; distinct = distinct API-level event logs",
+        "bounds": {"quick": quick, "thorough": thorough},
+        "assumptions": SC_ASSUME,
+        "parallel": {"quick": 3, "thorough": 2},
+        "budget_s": {"quick": 175, "thorough": 1500},
+    }
+
+
 PLAN = {
+    "C01": _qplan("2-3 client threads, 1-3 submissions each over serial/concurrent/global/chained queues, ping-pong, gated and cold-pool variants",
+                  "k<=2 for programs on serial hierarchies, k<=1 for programs that run on the pool concurrently",
+                  "k<=3 / k<=2 (programs cut by the deadline report their completed bound)"),
+    "C02": _qplan("mixes of async/sync/barrier/async_and_wait/apply on one serial queue from 2-3 threads",
+                  "k<=2 (k<=1 for 3-thread and pool-targeting programs)", "k<=3 / k<=2"),
+    "C03": _qplan("hierarchies of depth 2-3, fan-in 2, serial/concurrent inner queues, serial or workloop bottom, retargeted inactive queues",
+                  "k<=2 (k<=1 for 3-thread programs)", "k<=3 / k<=2"),
+    "C04": _qplan("barrier and non-barrier items (async, sync, barrier block objects, apply) on a custom concurrent queue, default and width-2",
+                  "k<=1", "k<=2 (programs cut by the deadline report their completed bound)"),
+    "C05": _qplan("every synchronous hand-off edge (sync, barrier_sync, async_and_wait, apply) contended by a second thread, over serial/concurrent/global/chained/workloop",
+                  "k<=2 on serial hierarchies, k<=1 on the pool", "k<=3 / k<=2"),
     "C13": {
         "rule": "breadth-first search over terms built from 3 leaves (sizes 1,2,3; five leaf-kind configurations) with concat / subrange (all offsets and lengths incl. out-of-range) / "
                 "map / copy_region, de-duplicated on the canonical region list; one evaluation = one operation application checked against a byte-string model, plus every release order "
@@ -47,6 +120,16 @@ PLAN = {
         "bounds": {"quick": "<=4 records, <=8 bytes, operation depth 3, release orders for depth <=2 terms with <=4 handles",
                    "thorough": "<=6 records, <=12 bytes, depth 4 (two leaf configurations) / depth 3 (three), release orders for depth <=3"},
         "assumptions": SEQ_ASSUME,
+        "parallel": {"quick": 1, "thorough": 1},
+        "budget_s": {"quick": 150, "thorough": 1500},
+    },
+    "C20": {
+        "rule": "all byte strings up to a length bound over a 15-class byte alphabet x ALL fragmentations into regions (each region its own exactly-sized malloc'ed leaf) x all 28 accepted format pairs; "
+                "base encoders/decoders against an RFC 4648 reference incl. re-fragmented encoded text; well-formed text from 14 boundary code points in UTF-8/16LE/16BE x all fragmentations; "
+                "one evaluation = one oracle evaluation (round trip / fail-or-invertible / ASan); distinct = distinct (pair, outcome class) results",
+        "bounds": {"quick": "bytes: len<=4 over 15 classes + len 5 over 6; encoders len<=8 over 3 symbols; text <=3 code points",
+                   "thorough": "bytes: len<=5 over 15 classes, len 6 over 6, len 7 over 4; encoders len<=9; text <=3 code points from 14 + 4 code points over 6"},
+        "assumptions": SEQ_ASSUME + ["bytes outside the 15-class alphabet and inputs longer than the bound are not covered; little-endian host"],
         "parallel": {"quick": 1, "thorough": 1},
         "budget_s": {"quick": 150, "thorough": 1500},
     },
@@ -94,7 +177,12 @@ def tasks_for(pid, tier):
         return sx("data_c13")
     if pid == "C18":
         return sx("attrs_c18")
+    if pid == "C20":
+        return sx("transform_c20")
     if pid == "C09":
         return (ds("once", 3 if q else 4, [0, 1]) + ds("once", 3, [2, 3]) +
                 ds("once", 2 if q else 3, [4, 5], jobs=4 if q else 8))
+    qmap = {"C01": "q01", "C02": "q02", "C03": "q03", "C04": "q04", "C05": "q05"}
+    if pid in qmap:
+        return qp(qmap[pid], tier, 2 if q else 3, 1 if q else 2)
     raise KeyError(pid)
